@@ -12,14 +12,21 @@ class Witness(Exception):
 WITNESSES = []  # filled by harnesses on a failing path (realised inputs)
 
 
+def _jsonable(r):
+    if isinstance(r, (bytes, bytearray)):
+        return {"hex": bytes(r).hex()}
+    if isinstance(r, dict):
+        return {str(k): _jsonable(v) for k, v in r.items()}
+    if isinstance(r, (list, tuple)):
+        return [_jsonable(v) for v in r]
+    return r
+
+
 def record_witness(**kw):
     """call on the failing path, with tracing on; values are realised"""
     out = {}
     for k, v in kw.items():
-        r = sym.realize(v)
-        if isinstance(r, (bytes, bytearray)):
-            r = {"hex": bytes(r).hex()}
-        out[k] = r
+        out[k] = _jsonable(sym.realize(v))
     WITNESSES.append(out)
 
 
